@@ -912,6 +912,17 @@ def r_sw_balanced(ctx, a):
     pot = resolved(ctx, g, 'potential', nodal_of(pot_fn, xyz), lmax=LM); oro = resolved(ctx, g, 'orography', nodal_of(oro_fn, xyz), lmax=LM)
     eq = sw_eq(c, a['dens'], a['ref'], oro, Om, radius=rad)
     tot = sw_total(eq, vort, np.zeros_like(vort), pot)
+    # named hypotheses of C05_sw_model_refines_spec / C05_sw_model_jet_steady_partial on this jet family (implementation's own operators)
+    _sh = dyn.mods()['sh']; _jnp = dyn.mods()['jnp']
+    div0 = np.zeros_like(vort)
+    ctx.table_obligation('H_sw_pot_clip: the jet potential has no content in the clipped total wavenumber', bool(np.all(pot[..., -1] == 0)), None)
+    cu, cv = _sh.get_cos_lat_vector(_jnp.asarray(vort), _jnp.asarray(div0), g)
+    s2 = np.asarray(g.sec2_lat)
+    nu, nv = to_nodal(g, np.asarray(cu)), to_nodal(g, np.asarray(cv))
+    dback = np.asarray(g.clip_wavenumbers(g.div_cos_lat((g.to_modal(_jnp.asarray(nu * s2)), g.to_modal(_jnp.asarray(nv * s2))))), dtype=np.float64)
+    usc = float(np.max(np.abs(nu * s2))) * g.total_wavenumbers / float(g.radius) + 1e-300
+    ctx.table_obligation('H_sw_div_vel: clip(div_cos_lat(to_modal(u sec2), to_modal(v sec2))) returns the divergence of the jet state (0)',
+                         float(np.max(np.abs(dback - div0))) <= 1e-10 * usc, {'error': float(np.max(np.abs(dback - div0))), 'scale': usc})
     dsc = max(float(np.max(np.abs(to_modal(g, nodal_of(f, xyz))))) for f in sp['mags']['divergence']) + 1e-300
     ctx.count('sw_balanced: K=%d deg=%d' % (K, max(len(w) for w in a['w'])))
     wc = (1 - z * z >= 0.02)      # the plugin's own polynomial evaluation is ill-conditioned next to the poles of tall grids
